@@ -1,6 +1,6 @@
 (* Props/C16.v -- Residual-adaptive refinement follows its schedule and never exceeds capacity. *)
 From Coq Require Import ZArith List Bool Lia ZifyBool.
-From JV Require Import Kit.Tac Gen.G_rar Model.M_datagen Model.M_rar Inst.I_rar Proofs.P_rar_sched Proofs.P_rar.
+From JV Require Import Kit.Tac Gen.G_rar Model.M_datagen Model.M_rar Inst.I_rar Proofs.P_rar_sched Proofs.P_rar Proofs.P_rar_resume.
 Import ListNotations.
 Open Scope Z_scope.
 
@@ -50,9 +50,32 @@ Theorem C16_active_space k g : r_x G = Some g ->
   actives (st_x (st k)) = dstart px + J (st k) * dsel px /\ actives (st_x (st k)) <= dn px /\
   length (act (st_x (st k))) = Z.to_nat (dn px).
 Proof. exact (active_x G Gok start every pt px Hpt Hpx sel lt lx k g). Qed.
+
+(* resumed training: the generator returned after k1 iterations is handed to a new call.  init_rar re-arms the period
+   counter and touches nothing else (part of the obligation above); iteration numbers restart at 0.  After k iterations of
+   the new call the step count is the earlier one plus the scheduled ones, capped by the capacity; steps happen at
+   start + j * every of the new call while a full set fits *)
+Definition reinit (s : @rst A) : @rst A := {| cnt := r_init_counter G every; J := J s; st_t := st_t s; st_x := st_x s |}.
+Lemma reinit_ok k1 : let s1 := st k1 in
+  0 <= J s1 <= cap /\ cnt (reinit s1) = every - 1 /\ J (reinit s1) = J s1 /\ dinv (r_t G) pt (J s1) (st_t (reinit s1)) /\ dinv (r_x G) px (J s1) (st_x (reinit s1)).
+Proof. cbn zeta. destruct (sim G Gok start every pt px Hpt Hpx sel lt lx k1) as (_ & HJ & Ht & Hx & _).
+  destruct Gok as (_ & _ & _ & _ & Hic & _). cbn [reinit cnt J st_t st_x]. rewrite Hic.
+  split; [exact HJ|]. split; [reflexivity|]. split; [reflexivity|]. split; [exact Ht|exact Hx]. Qed.
+Variable sel2 : Z -> list A * list A.
+Theorem C16_resumed_steps_done k1 k :
+  J (run G start every pt px sel2 (reinit (st k1)) k) = Z.min cap (J (st k1) + sched start every (Z.of_nat k)).
+Proof. destruct (reinit_ok k1) as (HJ & H).
+  exact (resumed_steps_done G Gok start every pt px Hev Hst Hpt Hpx sel2 (J (st k1)) HJ (reinit (st k1)) H k). Qed.
+Theorem C16_resumed_steps_on_schedule k1 k :
+  stepped G start every pt px sel2 (reinit (st k1)) k =
+  (start <=? Z.of_nat k) && ((Z.of_nat k - start) mod every =? 0) && (J (st k1) + sched start every (Z.of_nat k) <? cap).
+Proof. destruct (reinit_ok k1) as (HJ & H).
+  exact (resumed_step_schedule G Gok start every pt px Hev Hst Hpt Hpx sel2 (J (st k1)) HJ (reinit (st k1)) H k). Qed.
 End C16.
 
 Print Assumptions regenerated_rar_ok.
+Print Assumptions C16_resumed_steps_done.
+Print Assumptions C16_resumed_steps_on_schedule.
 Print Assumptions C16_steps_exactly_on_schedule.
 Print Assumptions C16_nothing_before_start.
 Print Assumptions C16_steps_done.
